@@ -124,7 +124,8 @@ prop("C14",
      technique="property-based testing (rapid) against a reference traversal",
      rule="documents from the grammar sentence generator (vocabulary of the kitchen schema when type tracking is on); policies aim at existing pre-order indices; forms: KindFuncMap{Kind,Leave}, KindFuncMap{Enter,Leave}, generic Enter/Leave (with EnterKindMap traps), Enter/LeaveKindMap, mixture. Also: no-edit traversal leaves the tree identical, second traversal gives the same number of events. Non-trivial = a skip/break in some policy, or >= 2 parallel visitors, or a type-system document; distinct by hash of the case.",
      assumptions=SYN_ASSUME,
-     runs=[dict(test="^TestC14$", quick=dict(checks=4000), thorough=dict(checks=40000, shards=16, timeout=3000))])
+     runs=[dict(test="^TestC14$", quick=dict(checks=4000), thorough=dict(checks=40000, shards=16, timeout=3000)),
+           dict(test="^TestC14_Rules$", quick=dict(checks=2500), thorough=dict(checks=25000, shards=16, timeout=3000))])
 
 prop("C18",
      level_text="generated-input search (rapid): (a) syntactically corrupted documents under CR/LF/CRLF layouts: the (line, column) of the syntax error, converted by the harness's own line splitter, must fall inside the first token / malformed lexeme at which the reference parser says the text stops being a valid prefix; (b) validation errors of injected violations must be located at the start of a node the violated rule may blame; (c) field errors: path = response keys and indices of a field the reference says fails, data at the path or a prefix is null, every location is the start of an occurrence of that field",
